@@ -325,5 +325,89 @@ func aliasLayers(tier string) []Layer {
 				}
 			}
 		},
-	}, operandAttrLayer(tier)}
+	}, operandAttrLayer(tier), sharedBufferLayer(tier)}
+}
+
+// X3: operands whose mantissas are windows of ONE caller-owned word buffer (SetBitsExp keeps the
+// caller's slice): two different Decimals then share a backing array, overlap, or end at the same
+// capacity. The outcome depends on the operand values only, so it equals the outcome for
+// independent copies, and the buffer is left as it was.
+func sharedBufferLayer(tier string) Layer {
+	bufs := [][]uint64{
+		{3 * (BW / 10), 2*(BW/10) + 7, 5*(BW/10) + 1, BW - 1, 1234567890123456789, 2 * (BW / 10)},
+		{BW - 1, BW - 1, BW - 1, BW - 1, BW - 1, BW - 1},
+		{2 * (BW / 10), 3 * (BW / 10), 2 * (BW / 10), 3 * (BW / 10), 2 * (BW / 10), 3 * (BW / 10)},
+	}
+	type win struct{ i, n int }
+	var wins []win
+	for n := 1; n <= 3; n++ {
+		for i := 0; i+n <= 6; i++ {
+			wins = append(wins, win{i, n})
+		}
+	}
+	type bop struct {
+		name string
+		do   func(z, x, y *Dec) string
+	}
+	obs := func(z *Dec) string { return Observe(z).String() }
+	bops := []bop{
+		{"Mul", func(z, x, y *Dec) string { return obs(z.Mul(x, y)) }},
+		{"Quo", func(z, x, y *Dec) string { return obs(z.Quo(x, y)) }},
+		{"Add", func(z, x, y *Dec) string { return obs(z.Add(x, y)) }},
+		{"Sub", func(z, x, y *Dec) string { return obs(z.Sub(x, y)) }},
+		{"FMA(x,y,x)", func(z, x, y *Dec) string { return obs(z.FMA(x, y, x)) }},
+		{"FMA(y,y,x)", func(z, x, y *Dec) string { return obs(z.FMA(y, y, x)) }},
+		{"Cmp", func(z, x, y *Dec) string { return fmt.Sprint(x.Cmp(y), y.Cmp(x)) }},
+	}
+	precs := []uint32{19, 40, 120}
+	return Layer{
+		Name:   "X3-operands-sharing-one-word-buffer",
+		Units:  len(bufs) * len(wins),
+		Bounds: fmt.Sprintf("x = SetBitsExp(buf[i:i+n], 1), y = SetBitsExp(buf[j:j+k], e) for every pair of the %d windows of 1..3 words of %d six-word buffers (identical, overlapping, adjacent, disjoint windows; equal and different lengths), e in {1, 0}; {Mul, Quo, Add, Sub, FMA(x,y,x), FMA(y,y,x), Cmp} into a fresh receiver of precision %v, modes Even/ToZero: outcome == outcome for independent copies of the operands; buffer unchanged", len(wins), len(bufs), precs),
+		Run: func(c *Ctx, u int) {
+			base := bufs[u/len(wins)]
+			wx := wins[u%len(wins)]
+			for _, wy := range wins {
+				for _, ey := range []int64{1, 0} {
+					for _, p := range precs {
+						for _, m := range []uint8{ToNearestEven, ToZero} {
+							for _, op := range bops {
+								if c.Skip() {
+									continue
+								}
+								c.NonTrivial()
+								buf := toWords(base)
+								x := new(Dec).SetBitsExp(buf[wx.i:wx.i+wx.n], 1)
+								y := new(Dec).SetBitsExp(buf[wy.i:wy.i+wy.n], ey)
+								x2 := new(Dec).SetBitsExp(toWords(base[wx.i:wx.i+wx.n]), 1)
+								y2 := new(Dec).SetBitsExp(toWords(base[wy.i:wy.i+wy.n]), ey)
+								key := fmt.Sprintf("%s x=buf[%d:%d]e1 y=buf[%d:%d]e%d buf=%s prec=%d mode=%s", op.name, wx.i, wx.i+wx.n, wy.i, wy.i+wy.n, ey, wordsKey(base), p, modeName(m))
+								if obs(x) != obs(x2) || obs(y) != obs(y2) {
+									c.Fail(key, fmt.Sprintf("SetBitsExp on windows of one buffer: x=%s (independent copy %s), y=%s (independent copy %s)", obs(x), obs(x2), obs(y), obs(y2)))
+									continue
+								}
+								var got, want string
+								pv, _ := protect(func() { got = op.do(fresh(p, m), x, y) })
+								pv2, _ := protect(func() { want = op.do(fresh(p, m), x2, y2) })
+								c.Outcome(fnvStr(0, got))
+								if pv != nil || pv2 != nil || got != want {
+									c.Fail(key, fmt.Sprintf("operands sharing a buffer: got %s (panic %v); independent copies of the same values: %s (panic %v)", got, pv, want, pv2))
+									continue
+								}
+								for i, w := range buf {
+									if uint64(w) != base[i] {
+										c.Fail(key, fmt.Sprintf("the caller's buffer was modified at word %d", i))
+										break
+									}
+								}
+								if obs(x) != obs(x2) || obs(y) != obs(y2) {
+									c.Fail(key, "an operand changed during the operation")
+								}
+							}
+						}
+					}
+				}
+			}
+		},
+	}
 }
